@@ -37,9 +37,12 @@ static distinct_t g_distinct;
 static digest_t g_dig;
 
 /* ------------------------------------------------------------- arena */
-#define ARENA_N 96
-#define WIN_OFF 32
-static uint8_t ARENA[ARENA_N], PAT[ARENA_N];
+#define ARENA_N 256
+#define WIN_OFF 64
+/* cache-line aligned, so that g_align (0..127) places the window at every offset of a 64-byte line, including the
+ * positions where a 2..9-byte encoding straddles two lines */
+static _Alignas(64) uint8_t ARENA[ARENA_N];
+static uint8_t PAT[ARENA_N];
 static unsigned g_align;
 static inline void arena_newpat(rng_t *r) {
     rng_fill(r, PAT, ARENA_N);
@@ -158,6 +161,8 @@ static int cs_len(uint64_t v) { return varintChainedSimpleLength(v); }
 #define SPLITFAM(N, PFX, NAME)                                                                                         \
     static int N##_put(uint8_t *d, uint64_t v) { g_ctx = NAME "Put_"; varintWidth len = 0; PFX##Put_(d, len, v | g_zero); return (int)len; } \
     static int N##_get(const uint8_t *s, uint64_t *v) { g_ctx = NAME "Get_"; varintWidth len = 0; uint64_t x = 0; PFX##Get_(s, len, x); *v = x; return (int)len; } \
+    /* the destination operand also occurs in the pointer operand (following an offset chain: pos = Get(base + pos)) */ \
+    static int N##_getchain(const uint8_t *s, uint64_t *v) { g_ctx = NAME "Get_"; varintWidth len = 0; uint64_t pos = g_zero; PFX##Get_(s + pos, len, pos); *v = pos; return (int)len; } \
     static int N##_len(uint64_t v) { varintWidth len = 0; PFX##Length_(len, v | g_zero); return (int)len; }                   \
     static int N##_getlen(const uint8_t *s) { varintWidth len = 0; PFX##GetLen_(s, len); return (int)len; }          \
     static int N##_getlenq(const uint8_t *s) { return (int)PFX##GetLenQuick_(s); }
@@ -192,19 +197,19 @@ static fam_t FAMS[] = {
      .lens = {{"Length", cs_len}},
      .getlens = {{"walk", ch_getlen}}},
     {.name = "split", .minlen = 1, .maxlen = 9, .ref = ref_split,
-     .puts = {{"Put_", sp_put}}, .gets = {{"Get_", sp_get}}, .lens = {{"Length_", sp_len}},
+     .puts = {{"Put_", sp_put}}, .gets = {{"Get_", sp_get}, {"Get_(offset-chain)", sp_getchain}}, .lens = {{"Length_", sp_len}},
      .getlens = {{"GetLen_", sp_getlen}, {"GetLenQuick_", sp_getlenq}},
      .rput_forward = sp_rputf, .rput_reversed = sp_rputr, .rget = sp_rget, .rgetlen = {sp_getlen, sp_getlenq}},
     {.name = "splitFull", .minlen = 1, .maxlen = 9, .ref = ref_splitfull,
-     .puts = {{"Put_", sf_put}}, .gets = {{"Get_", sf_get}}, .lens = {{"Length_", sf_len}},
+     .puts = {{"Put_", sf_put}}, .gets = {{"Get_", sf_get}, {"Get_(offset-chain)", sf_getchain}}, .lens = {{"Length_", sf_len}},
      .getlens = {{"GetLen_", sf_getlen}, {"GetLenQuick_", sf_getlenq}},
      .rput_forward = sf_rputf, .rput_reversed = sf_rputr, .rget = sf_rget, .rgetlen = {sf_getlen, sf_getlenq}},
     {.name = "splitFullNoZero", .minlen = 1, .maxlen = 9, .minval = 1, .ref = ref_splitnz,
-     .puts = {{"Put_", nz_put}}, .gets = {{"Get_", nz_get}}, .lens = {{"Length_", nz_len}},
+     .puts = {{"Put_", nz_put}}, .gets = {{"Get_", nz_get}, {"Get_(offset-chain)", nz_getchain}}, .lens = {{"Length_", nz_len}},
      .getlens = {{"GetLen_", nz_getlen}, {"GetLenQuick_", nz_getlenq}},
      .rput_forward = nz_rputf, .rput_reversed = nz_rputr, .rget = nz_rget, .rgetlen = {nz_getlen, nz_getlenq}},
     {.name = "splitFull16", .minlen = 2, .maxlen = 9, .ref = ref_split16,
-     .puts = {{"Put_", s16_put}}, .gets = {{"Get_", s16_get}}, .lens = {{"Length_", s16_len}},
+     .puts = {{"Put_", s16_put}}, .gets = {{"Get_", s16_get}, {"Get_(offset-chain)", s16_getchain}}, .lens = {{"Length_", s16_len}},
      .getlens = {{"GetLen_", s16_getlen}, {"GetLenQuick_", s16_getlenq}}},
 };
 #define NFAMS (sizeof(FAMS) / sizeof(FAMS[0]))
@@ -564,6 +569,10 @@ static void c01_external(uint64_t v, rng_t *r) {
     {
         int W = 9 + (int)rng_below(r, 8);
         __uint128_t big = ((__uint128_t)rng_next(r) << 64) | v;
+        if (rng_chance(r, 1, 2)) {
+            big = v; /* a value that would fit 8 bytes, stored in a wider slot over whatever the slot held */
+            STAT_INC("c01_big_calls_with_small_value");
+        }
         if (W < 16) {
             big &= (((__uint128_t)1) << (8 * W)) - 1;
         }
@@ -773,6 +782,23 @@ static void c04_value(uint64_t v) {
             FAIL("externalBE", "Get", "reference-bytes-misread", "v=%" PRIu64 " got %" PRIu64, v, o);
         }
         STAT_ADD("c04_byte_comparisons", 2);
+        /* fixed widths (every width from the minimal one up to 8, and 9..16 through the 128-bit writer) are the value's
+         * little-endian bytes zero-extended, whatever the slot held before */
+        int minw = ref_external_le(rb, v);
+        int W = minw + (int)(v % (uint64_t)(17 - minw));
+        uint8_t want[16];
+        for (int i = 0; i < 16; i++) want[i] = i < 8 ? (uint8_t)(v >> (8 * i)) : 0;
+        arena_reset();
+        if (W <= 8) {
+            g_ctx = "varintExternalPutFixedWidth";
+            varintExternalPutFixedWidth(win(), v, (varintWidth)W);
+            c04_check_bytes("externalLE", "PutFixedWidth", v, win(), W, want, W);
+        } else {
+            g_ctx = "varintExternalPutFixedWidthBig";
+            varintExternalPutFixedWidthBig(win(), (__uint128_t)v, (varintWidth)W);
+            c04_check_bytes("externalLE", "PutFixedWidthBig", v, win(), W, want, W);
+        }
+        STAT_INC("c04_fixed_width_external_byte_comparisons");
     }
     /* zig-zag */
     {
@@ -1009,7 +1035,39 @@ static int tuple_cmp(const skey_t *a, const skey_t *b) {
  * argument, and an in-place add that arrives at the value */
 static unsigned g_c05_producer;
 static int c05_encode(uint8_t *e, uint64_t v) {
-    switch (g_c05_producer % 4) {
+    switch (g_c05_producer % 6) {
+    case 4: { /* a slot first written wider than needed (fixed width), then updated in place to the value */
+        uint64_t h = (v ^ (v >> 31)) * 0xD6E8FEB86659FD93ULL + g_c05_producer;
+        uint64_t d = (h >> 9) % 300;
+        bool up = (h >> 8) & 1; /* arrive from below or from above */
+        uint64_t from = up ? v - d : v + d;
+        if (v <= (uint64_t)INT64_MAX - 400 && (!up || v >= d)) {
+            int minw = ref_tagged_len(from);
+            int W = minw < 4 ? 4 + (int)((h >> 20) % 6) : minw + (int)((h >> 20) % (uint64_t)(10 - minw));
+            if (W > 9) W = 9;
+            bool grow = (h >> 7) & 1;
+            g_ctx = grow ? "varintTaggedAddGrow" : "varintTaggedAddNoGrow";
+            varintTaggedPut64FixedWidth(e, from, (varintWidth)W);
+            int ret = grow ? (int)varintTaggedAddGrow(e, up ? (int64_t)d : -(int64_t)d) : (int)varintTaggedAddNoGrow(e, up ? (int64_t)d : -(int64_t)d);
+            if (ret <= W || grow) { /* (a refused no-grow add leaves the slot as it was: not a key for v) */
+                STAT_INC("c05_keys_updated_in_a_fixed_width_slot");
+                return ret;
+            }
+        }
+        g_ctx = "varintTaggedPut64";
+        return (int)varintTaggedPut64(e, v);
+    }
+    case 5: { /* width chosen from the documented per-width maxima, written with the fixed-width writer */
+        static const uint64_t maxima[9] = {VARINT_TAGGED_MAX_1, VARINT_TAGGED_MAX_2, VARINT_TAGGED_MAX_3, VARINT_TAGGED_MAX_4, VARINT_TAGGED_MAX_5,
+                                           VARINT_TAGGED_MAX_6, VARINT_TAGGED_MAX_7, VARINT_TAGGED_MAX_8, VARINT_TAGGED_MAX_9};
+        int W = 1;
+        while (W < 9 && v > maxima[W - 1]) W++;
+        g_ctx = "varintTaggedPut64FixedWidth(width from VARINT_TAGGED_MAX_n)";
+        if (W <= 3) return (int)varintTaggedPut64(e, v); /* fixed widths below 4 only exist as the minimal width */
+        varintTaggedPut64FixedWidth(e, v, (varintWidth)W);
+        STAT_INC("c05_keys_with_width_from_documented_maxima");
+        return W;
+    }
     case 3: { /* an in-place add that arrives at the value from above, usually from a wider encoding */
         uint64_t h = (v ^ (v >> 29)) * 0x9E3779B97F4A7C15ULL + g_c05_producer;
         uint64_t d = 1 + ((h >> 8) >> (h % 56)); /* log-uniform amounts */
@@ -1061,7 +1119,7 @@ static void c05_pair(uint64_t a, uint64_t b, const char *gen) {
     if (a == b && (la != lb || memcmp(ea, eb, (size_t)la))) {
         viol("C05:tagged.memcmp:equal-values-different-bytes", "a=%" PRIu64, a);
     }
-    if (g_c05_producer % 4) { /* the same value from the plain encoder */
+    if (g_c05_producer % 6) { /* the same value from the plain encoder */
         uint8_t pa[9];
         int lp = varintTaggedPut64(pa, a);
         if (lp != la || memcmp(pa, ea, (size_t)lp)) {
@@ -1371,8 +1429,9 @@ static void scalar_case(uint64_t idx, rng_t *r) {
     uint64_t g = idx * g_nshards + g_shard;
     uint64_t E = g_param[0];
     uint64_t v = g < E ? g : gen_value(r);
-    g_align = (unsigned)(g & 15);
-    g_alignseen[g_align]++;
+    g_align = (unsigned)(g & 127);
+    g_alignseen[g_align & 15]++;
+    if ((g_align & 63) > 55) STAT_INC("c01_windows_straddling_a_cache_line");
     arena_newpat(r);
     if (g < E) {
         if (v >= 64) {
